@@ -1013,6 +1013,20 @@ func (r *Runner) builtin(ctx context.Context, pos syntax.Pos, name string, args 
 
 		var vr expand.Variable
 		vr.Kind = expand.Indexed
+		if r.stdin != nil {
+			// Like in readLine, make a blocked read fail once the context is done.
+			stopc := make(chan struct{})
+			stop := context.AfterFunc(ctx, func() {
+				r.stdin.SetReadDeadline(time.Now())
+				close(stopc)
+			})
+			defer func() {
+				if !stop() {
+					<-stopc
+					r.stdin.SetReadDeadline(time.Time{})
+				}
+			}()
+		}
 		scanner := bufio.NewScanner(r.stdin)
 		scanner.Split(mapfileSplit(delim[0], dropDelim))
 		for scanner.Scan() {
